@@ -51,6 +51,12 @@ type goNodeWorld struct {
 	held []*simDatagram
 	// recvErrors counts recv_error datagrams seen on the wire in any phase
 	recvErrors int
+	relayWorld bool
+}
+
+// reachable: the topology's missing direct paths also hold for hand-delivered datagrams.
+func (g *goNodeWorld) reachable(d *simDatagram, to *simNode) bool {
+	return d.src < 0 || !g.mw.blocked[[2]int{d.src, to.idx}]
 }
 
 // grab collects what the nodes emitted (instead of putting it on the simulated network) and drains worker queues.
@@ -109,6 +115,9 @@ func (g *goNodeWorld) takeFor(i int, some bool) []*simDatagram {
 	tp := g.rc.Tape
 	var mine, rest []*simDatagram
 	for _, d := range g.held {
+		if g.mw.nodeIndexByUDP(d.to) == i && !g.reachable(d, g.mw.nodes[i]) {
+			continue // no such path: the network drops it
+		}
 		if g.mw.nodeIndexByUDP(d.to) == i && !(some && tp.Chance(1, 4)) {
 			mine = append(mine, d)
 		} else {
@@ -141,15 +150,35 @@ func runGoNode(rc *sk.RunCtx, focus string) {
 		retries = 2 + tp.Choose(3)
 		mayDrop = true
 	}
-	mw := buildMesh(rc, meshOpts{minNodes: 2, maxNodes: 2, noFaults: true, allowV1: true, allowP256: true,
-		extra: func(i int, spec *nodeSpec) {
+	// a pair with a direct path, or (not for C32, whose exactly-once rule assumes one path) a triple in which node 0 is
+	// lighthouse + relay and the two endpoints have no direct path: relay control messages, relay records and relay
+	// indexes join the interleaving
+	relayWorld := focus != "C32" && tp.Chance(1, 3)
+	mo := meshOpts{minNodes: 2, maxNodes: 2, noFaults: true, allowV1: true, allowP256: true}
+	if relayWorld {
+		mo = meshOpts{minNodes: 3, maxNodes: 3, noFaults: true, allowP256: true, forceRelay: true}
+	}
+	e0, e1 := 0, 1 // the two endpoints that talk to each other
+	if relayWorld {
+		e0, e1 = 1, 2
+	}
+	other := func(i int) int {
+		if i == e0 {
+			return e1
+		}
+		return e0
+	}
+	mo.extra = func(i int, spec *nodeSpec) {
+		{
 			if spec.extra == nil {
 				spec.extra = map[string]any{}
 			}
 			// short liveness intervals: the connection manager's traffic checks are due within the prelude's clock steps
 			deepMerge(spec.extra, map[string]any{"handshakes": map[string]any{"try_interval": "200ms", "retries": retries},
 				"timers": map[string]any{"connection_alive_interval": 1, "pending_deletion_interval": 1}})
-		}})
+		}
+	}
+	mw := buildMesh(rc, mo)
 	if rc.Failed() {
 		return
 	}
@@ -168,28 +197,33 @@ func runGoNode(rc *sk.RunCtx, focus string) {
 		return !rc.Failed()
 	}
 	send := func(src int) {
-		mw.appSend(src, 1-src, 0)
+		mw.appSend(src, other(src), 0)
 	}
+	g.relayWorld = relayWorld
 
-	// phase 0: prelude
-	for s, ns := 0, tp.Choose(9); s < ns; s++ {
+	// phase 0: prelude (longer in the relay world: lighthouse query, relay request and response come first)
+	maxSteps := 9
+	if relayWorld {
+		maxSteps = 24
+	}
+	for s, ns := 0, tp.Choose(maxSteps); s < ns; s++ {
 		switch tp.Weighted(3, 2, 4, 2) {
 		case 0:
-			send(0)
+			send(e0)
 		case 1:
-			send(1)
+			send(e1)
 		case 2:
 			if len(g.held) > 0 {
 				k := tp.Choose(len(g.held))
 				d := g.held[k]
 				g.held = append(g.held[:k:k], g.held[k+1:]...)
-				if to := mw.nodeByUDP(d.to); to != nil {
+				if to := mw.nodeByUDP(d.to); to != nil && g.reachable(d, to) {
 					to.recvBatch([]*simDatagram{d})
 				}
 			}
 		case 3:
 			g.advance(time.Duration(50+tp.Choose(900)) * time.Millisecond)
-			n := mw.nodes[tp.Choose(2)]
+			n := mw.nodes[tp.Choose(len(mw.nodes))]
 			n.hsTick()
 			if tp.Chance(1, 2) {
 				n.cmTick()
@@ -239,16 +273,17 @@ func runGoNode(rc *sk.RunCtx, focus string) {
 				})
 			}
 		}
-		if tp.Chance(3, 4) {
+		isEndpoint := i == e0 || i == e1
+		if isEndpoint && tp.Chance(3, 4) {
 			cnt := 1 + tp.Choose(4)
 			var pkts [][]byte
 			for c := 0; c < cnt; c++ {
 				// registered as sent now; injected by the task
 				mw.nextID++
 				id := mw.nextID
-				sa, da := n.vpnAddr(), mw.nodes[1-i].vpnAddr()
-				pkt := simUDP(sa, da, 1000+uint16(i), 2000+uint16(1-i), markerPayload(id, tp.Choose(64)))
-				mw.sent[id] = &sentPkt{id: id, src: i, dst: 1 - i, srcAddr: sa, dstAddr: da, at: mw.now, pkt: pkt}
+				sa, da := n.vpnAddr(), mw.nodes[other(i)].vpnAddr()
+				pkt := simUDP(sa, da, 1000+uint16(i), 2000+uint16(other(i)), markerPayload(id, tp.Choose(64)))
+				mw.sent[id] = &sentPkt{id: id, src: i, dst: other(i), srcAddr: sa, dstAddr: da, at: mw.now, pkt: pkt}
 				rc.Count("workload.sent", 1)
 				pkts = append(pkts, pkt)
 			}
@@ -289,7 +324,10 @@ func runGoNode(rc *sk.RunCtx, focus string) {
 		}
 		if tp.Chance(1, 4) {
 			roles++
-			peer := mw.nodes[1-i].vpnAddr()
+			peer := mw.nodes[(i+1)%len(mw.nodes)].vpnAddr()
+			if isEndpoint && tp.Chance(2, 3) {
+				peer = mw.nodes[other(i)].vpnAddr()
+			}
 			ctl := mw.control[i]
 			switch tp.Choose(4) {
 			case 0:
